@@ -271,7 +271,9 @@ def canon_heap(objs, root):
       return ['cfg', n, o.get('fn', ''), o.get('bk', ''), ch, sorted(o.get('tags', []), key=repr)]
     if o['k'] in ('dict', 'defaultdict'):
       return [o['k'], n, sorted(([json_key(pe), go(c)] for pe, c in o['ch']), key=lambda x: x[0])]
-    return [o['k'], n, [go(c) for _, c in o['ch']]]
+    if o['k'] in ('list', 'tuple'):
+      return [o['k'], n, [go(c) for _, c in o['ch']]]
+    return [o['k'], n, o.get('fn', ''), [[json_key(pe), go(c)] for pe, c in o['ch']]]
   return go(root)
 
 
